@@ -9,7 +9,8 @@ PROP = {
                  "Grol.E.C10.runInput_keeps", "Grol.E.runInput_eq", "Grol.E.sameSession_iff",
                  "Grol.E.eval_keeps", "Grol.E.eval_restores", "Grol.E.allGood",
                  "Grol.C10.renaming_invariance", "Grol.C10.runInput_sim", "Grol.C10.runInputs_sim", "Grol.C10.stR_of_heapExtends",
-                 "Grol.C10.statement_pointwise", "Grol.C10.statement_core", "Grol.C10.statement", "Grol.C10.ren_of_ok",
+                 "Grol.C10.statement_pointwise", "Grol.C10.statement_core", "Grol.C10.statement", "Grol.C10.statement_full",
+                 "Grol.C10.renderValue_ren", "Grol.C10.renderFuel_ren", "Grol.C10.renderInv", "Grol.C10.ren_of_ok",
                  "Grol.R.simSpec_all", "Grol.R.sim_envGet", "Grol.R.sim_makeRef", "Grol.R.sim_createOrSet", "Grol.R.sim_valueOf",
                  "Grol.R.sim_envDelete", "Grol.R.sim_extendFunctionEnv", "Grol.R.sim_finishCall", "Grol.R.sim_cacheGet",
                  "Grol.R.sim_cacheSet", "Grol.R.sim_evalInfixOp", "Grol.R.cmp_ren", "Grol.R.inspect_ren", "Grol.R.keyEq_ren_left",
@@ -62,13 +63,13 @@ LEVEL = {
              "top-level state, after ANY input (normal, error, Go panic, depth guard) scope = root and depth = 0 (reset; by induction "
              "over the whole evaluator: eval_restores, eval_keeps); an input whose final state has the heap, cache and in-place-write log (St.hazards, "
              "C06/C19 instrumentation) it started with leaves no trace for any continuation (no_trace). The full statement (heap grown by unreachable frames, "
-             "counters and log entries differing, cache unchanged) is proved up to the rendering of results: a two-run simulation of the whole evaluator "
+             "counters and log entries differing, cache unchanged) is PROVED for the model (Grol.C10.statement_full : C10.Statement, no hypothesis): a two-run simulation of the whole evaluator "
              "model up to a shift of the frame indices (Grol.C10.renaming_invariance: related states give related outcomes and related states, for every "
              "fuel and syntax tree; lean/GrolProofs/Ren*.lean, one lemma per model function, induction on the fuel over the 19 mutually recursive "
-             "functions) gives, from the hypotheses of C10.Statement, the same output, error flag, panic kind and decline reason for every input of every "
-             "continuation (Grol.C10.statement_core, unconditional). C10.Statement itself also compares InputObs.val = renderValue st v; renderValue is a "
-             "`partial def`, opaque to the kernel, so that last equation is the single named hypothesis RenderInv of Grol.C10.statement : RenderInv -> "
-             "C10.Statement. One listed finding: with the cache on, a failing input leaves cached "
+             "functions), its lifting to runInput and to continuations (runInput_sim, runInputs_sim), the relation established from the hypotheses of the "
+             "statement (stR_of_heapExtends) and the invariance of the result renderer (renderValue_ren; renderValue is a total function since this "
+             "proof: structural over the value, at most 1000 references followed in a row). What remains trusted is the tie between model and code "
+             "(eval and session correspondence suites). One listed finding: with the cache on, a failing input leaves cached "
              "closures behind (C04's closure-result class)."),
     "design_ref": "DESIGN.md section 7, C10",
     "note": ("Trusted: Lean kernel; axioms propext/Classical.choice/Quot.sound only; the evaluator model is tied to the code by the eval and "
